@@ -18,7 +18,7 @@ CHECKS = {
          "Same recording stubs as C01; KEM ciphertext bytes are bound only through decapsulation (by design of the protocol). Pairwise key distinctness across independent sessions rests on the freshness of ephemeral keys and is not a separate obligation.",
          "SSA symbolic execution + SMT (z3), transcript-conformance obligations with recording crypto stubs"),
  "C03": ("DESIGN.md §5 C03",
-         "One-step obligations from an arbitrary session state: a datagram of any length/content is delivered, or moves any state, only after exactly this datagram opened under this direction's key with its 16-byte header as associated data and a fresh counter, which is recorded afterwards; Write/WriteMsg chunking carries every byte once, in order, for every length 0..3*Max+1; ReadMsg/Read hand out queued messages whole and in order; the receive loops' buffers (bodies of the goroutines Serve and the client start, run inline) hold the largest datagram; the receive queue is empty or full; the replay filter's inductive step is discharged here too. Concurrent writers and the confidentiality clause for handshake fields are outside this check (see DESIGN.md).",
+         "One-step obligations from an arbitrary session state: a datagram of any length/content is delivered, or moves any state, only after exactly this datagram opened under this direction's key with its 16-byte header as associated data and a fresh counter, which is recorded afterwards; Write/WriteMsg chunking carries every byte once, in order, for every length 0..3*Max+1; ReadMsg/Read hand out queued messages whole and in order; the receive loops' buffers (bodies of the goroutines Serve and the client start, run inline) hold the largest datagram; the receive queue is empty or full; the replay filter's inductive step is discharged here too. Confidentiality is decided as syntactic non-interference: with SNI, certificates and application data as secret symbols and Encrypt/Seal as recorders with fresh outputs, no byte of any datagram written by the real client flow (ClientHello, ClientAck, ClientAuth), the hidden client request, writePQServerAuth, writePQServerResponseHidden, Write or WriteMsg depends on a secret symbol. Concurrent writers are outside this check (see DESIGN.md).",
          "Kravatte-SANSE replaced by a recording AEAD whose Open is nondeterministic (structural reading: which key/AD/bytes gate delivery; the primitive itself is C12). Receive-step harnesses use replay=none because the stub is not realisable natively; write harnesses replay natively.",
          "SSA symbolic execution + SMT (z3), one-step from arbitrary state, AEAD stub"),
  "C04": ("DESIGN.md §5 C04",
